@@ -322,6 +322,12 @@ func (r *rewriter) rewriteSelect(n *ast.SelectStmt) ast.Stmt {
 	var cases []ast.Expr
 	var clauses []ast.Stmt
 	hasDefault := false
+	libFed := false
+	noteChan := func(x ast.Expr) {
+		if t := r.info.TypeOf(x); t != nil && strings.Contains(t.String(), "github.com/go-stomp/") {
+			libFed = true
+		}
+	}
 	idx := 0
 	siteExpr := r.site(n, "select")
 	for _, cl := range n.Body.List {
@@ -346,6 +352,7 @@ func (r *rewriter) rewriteSelect(n *ast.SelectStmt) ast.Stmt {
 			if !ok || u.Op != token.ARROW {
 				die("%s: unsupported select clause", r.pos(s))
 			}
+			noteChan(u.X)
 			pre = append(pre, define(cname, u.X))
 			cases = append(cases, call(rt("RecvCase"), ast.NewIdent(cname)))
 		case *ast.AssignStmt:
@@ -353,6 +360,7 @@ func (r *rewriter) rewriteSelect(n *ast.SelectStmt) ast.Stmt {
 			if !ok || u.Op != token.ARROW || len(s.Rhs) != 1 {
 				die("%s: unsupported select clause", r.pos(s))
 			}
+			noteChan(u.X)
 			pre = append(pre, define(cname, u.X))
 			cases = append(cases, call(rt("RecvCase"), ast.NewIdent(cname)))
 			rhs := []ast.Expr{call(rt("CastFrom"), ast.NewIdent(cname), ast.NewIdent("_simR"))}
@@ -378,7 +386,7 @@ func (r *rewriter) rewriteSelect(n *ast.SelectStmt) ast.Stmt {
 		&ast.AssignStmt{
 			Lhs: []ast.Expr{ast.NewIdent("_simI"), ast.NewIdent("_simR"), ast.NewIdent("_simOK")},
 			Tok: token.DEFINE,
-			Rhs: []ast.Expr{call(rt("Select"), args...)},
+			Rhs: []ast.Expr{call(rt(map[bool]string{false: "Select", true: "SelectLib"}[libFed]), args...)},
 		},
 		&ast.AssignStmt{
 			Lhs: []ast.Expr{ast.NewIdent("_"), ast.NewIdent("_")},
